@@ -499,8 +499,10 @@ func (f *frame) evalSlice(in *ssa.Slice) bool {
 			f.set(in, Val{T: sx("mkslice", xv.T, lo, sx("-", hi, lo), sx("-", n, lo))})
 			return true
 		}
-		x.abstract("slice of array field")
-		f.set(in, Val{T: x.havocValue(f.st, in.Type(), "slice")})
+		x.abstract("slice of array field (length/capacity exact, contents and aliasing with the field not modelled)")
+		hv := x.havocValue(f.st, in.Type(), "slice")
+		x.assume(f.st, and(eq(sx("sllen", hv), sx("-", hi, lo)), eq(sx("scap", hv), sx("-", n, lo)), not(eq(sx("sbase", hv), "0"))))
+		f.set(in, Val{T: hv})
 		return true
 	}
 	return false
